@@ -102,7 +102,7 @@ def compile_prog(p):
         pad = '    ' * ind
         k = p[0]
         if k == 'ret': out.append(pad + 'pass')
-        elif k == 'raise': out.append(pad + 'raise BodyErr(%d)' % p[1])
+        elif k == 'raise': out.append(pad + 'raise BodyErr.pick(%d)(%d)' % (p[1], p[1]))
         elif k == 'req':
             if p[1] == 0: out.append(pad + 'm.lock(target=%r)' % p[2])
             elif p[1] == 1: out.append(pad + 'm.unlock(target=%r)' % p[2])
@@ -146,12 +146,30 @@ def compiled(p):
     return _CODE[key]
 
 # ------------------------------------------------------------------ implementation run
+def _transport_error():
+    from ncclient.transport.errors import TransportError
+    return TransportError
+
 class BodyErr(Exception):
     """The body's own exception. Exceptions built WITHOUT arguments (`raise Boom()`) are as legal as ones with: odd
     codes carry no args, even codes carry one."""
     def __init__(self, code):
         Exception.__init__(self, *(() if code % 2 else (code,)))
         self.code = code
+
+_BTE = []
+def body_exc_class(code):
+    """Every third body exception is (also) a TransportError that has nothing to do with the locking session - e.g. another
+    device's connection dropped inside the with-block: the datastore must still be unlocked."""
+    if code % 3 != 2: return BodyErr
+    if not _BTE:
+        TE = _transport_error()
+        class BodyTransportErr(BodyErr, TE):
+            def __init__(self, code):
+                BodyErr.__init__(self, code)
+        _BTE.append(BodyTransportErr)
+    return _BTE[0]
+BodyErr.pick = staticmethod(body_exc_class)
 
 def answer_errors(a, i):
     """entry of an answer script -> list of (severity, message); messages carry the request index"""
